@@ -114,7 +114,7 @@ class TwpRgeFinder:
                 left_bound = max((0, i - 20))
                 line = txt[left_bound:twprge_mo.end(0)]
                 self.flags.append(flag)
-                self.flag_lines.append(line)
+                self.flag_lines.append((flag, line))
 
         return None
 
@@ -244,7 +244,8 @@ class SecFinder:
             return None
         elif self.matches:
             flag = f"pulled_sec_without_colon<{','.join(sec_nums)}>"
-            self.flags.append((flag, flag))
+            self.flags.append(flag)
+            self.flag_lines.append((flag, flag))
             return None
         if require_colon == self.SEC_COLON_CAUTIOUS and layout in [TRS_DESC, S_DESC_TR]:
             # Do a second pass.
